@@ -609,11 +609,10 @@ func (self *Value) updateByteLen(originLen int, address []int, isPacked bool, pa
 		pathType := path[i].t
 		addressPtr := address[i]
 		if previousType == proto.MESSAGE || (previousType == proto.LIST && isPacked) {
-			subLen := fixLen(addressPtr)
-			if subLen != 0 && isPacked {
-				isPacked = false
-			}
-			diffLen += subLen
+			// isPacked describes the innermost list of the path only (the first step handled here): once a
+			// length prefix is re-written, an outer (unpacked) list step must not be taken for a packed one
+			isPacked = false
+			diffLen += fixLen(addressPtr)
 		}
 
 		if pathType == PathStrKey || pathType == PathIntKey {
